@@ -175,14 +175,14 @@ func VInstant(t time.Time) string { return VC("T", VZ(t.Unix()), VZ(int64(t.Nano
 
 // CaseSet accumulates (input, observed) pairs for one model function and writes sharded .v files.
 type CaseSet struct {
-	Name    string   // file stem, e.g. "C06_struct"
-	Imports string   // e.g. "Base Time Types Profile"
-	Prelude string   // extra Coq definitions (optional)
-	InType  string   // Coq type of the input component
-	Fun     string   // Coq term : InType -> val
-	PerShard int     // cases per .v shard (0: the -per-shard flag)
-	Cases   []string // "(input, obs)"
-	Descs   []string // human-readable description per case (for replays)
+	Name     string   // file stem, e.g. "C06_struct"
+	Imports  string   // e.g. "Base Time Types Profile"
+	Prelude  string   // extra Coq definitions (optional)
+	InType   string   // Coq type of the input component
+	Fun      string   // Coq term : InType -> val
+	PerShard int      // cases per .v shard (0: the -per-shard flag)
+	Cases    []string // "(input, obs)"
+	Descs    []string // human-readable description per case (for replays)
 }
 
 func (cs *CaseSet) Add(input, obs, desc string) {
